@@ -1,34 +1,142 @@
-import sys, time, importlib, traceback
-from .front import Repo
-from . import contracts as C
+"""check.py <Cnn> --tier quick|thorough   (the command registered in MANIFEST.json)
+
+Exit codes: 0 every obligation of the property discharged (known findings allowed); 1 violation
+(refuted obligation that is not a listed finding); 2 undecided; 3 checker error."""
+import argparse
+import importlib
+import json
+import multiprocessing as mp
+import os
+import sys
+import time
+import traceback
+
+HERE = os.path.dirname(os.path.dirname(os.path.abspath(__file__)))
+CONTRACT_MODULES = ['classes', 'c_crypto', 'c_message']
+TIMEOUT_MS = {'quick': 10000, 'thorough': 60000}
+
+_REPO = None
 
 
 def load_contracts():
-    for m in ('classes', 'c_message'):
+    for m in CONTRACT_MODULES:
         importlib.import_module('contracts.' + m)
 
 
-def main(argv):
-    from .verify import run_function
-    load_contracts()
-    repo = Repo()
-    if argv and argv[0] == '--func':
-        targets = argv[1:]
-    else:
-        targets = [q for q, c in C.CONTRACTS.items() if c.verify]
-    for fq in targets:
+def props_of(c):
+    ps = set(c.props)
+    for cl in c.requires + c.ensures + list(c.raises.values()):
+        ps.update(cl.props)
+    for l in c.loops.values():
+        for cl in l.invariant:
+            ps.update(cl.props)
+    return ps
+
+
+def worker(task):
+    """verify one (function, receiver); returns JSON-able results"""
+    fq, recv, timeout_ms = task
+    from . import contracts as C
+    from .verify import FunctionVerifier, discharge
+    from .model import value
+    import z3
+    t0 = time.time()
+    out = {'func': fq, 'receiver': recv, 'results': [], 'error': None, 'info': {}}
+    try:
+        fv = FunctionVerifier(_REPO)
+        obs, info = fv.verify(fq, recv)
+        fi = _REPO.funcs[fq]
         c = C.CONTRACTS[fq]
+        out['info'] = dict(info, gen_s=time.time() - t0, alias_sites=[list(a) for a in fv.ex.alias_sites],
+                           func_kind='init' if fi.node.name == '__init__' else fi.kind)
+        entry_env = fv.ex.entry.env if fv.ex.entry else {}
+        for ob in obs:
+            r = discharge(ob, timeout_ms)
+            d = {'name': ob.name, 'props': list(ob.props or []), 'status': r.status, 'time_s': round(r.time_s, 4),
+                 'backend': r.backend, 'reason': r.reason, 'trail': [list(map(str, t)) for t in ob.trail],
+                 'ob_kind': ob.kind, 'func': fq, 'receiver': recv or fi.cls, 'func_kind': out['info']['func_kind'],
+                 'lineno': ob.lineno}
+            if r.status != 'discharged':
+                d['goal_str'] = str(z3.simplify(ob.goal))[:1500]
+            if r.status == 'refuted':
+                m = r.model
+                d['model_str'] = str(m)[:3000]
+                d['entry'] = {k: value(m, v) for k, v in entry_env.items() if not isinstance(v, tuple)}
+                d['locals'] = {k: value(m, v) for k, v in (ob.env or {}).items()
+                               if k not in entry_env and not isinstance(v, tuple)}
+                d['allowed_exceptions'] = list(c.raises)
+            out['results'].append(d)
+        out['info']['solve_s'] = round(sum(x['time_s'] for x in out['results']), 3)
+    except Exception as e:  # checker error
+        out['error'] = f'{type(e).__name__}: {e}'
+        out['traceback'] = traceback.format_exc()[-3000:]
+    out['wall_s'] = round(time.time() - t0, 3)
+    return out
+
+
+def select_tasks(prop, C):
+    tasks = []
+    for fq, c in C.CONTRACTS.items():
+        if not c.verify:
+            continue
+        if prop is not None and prop not in props_of(c):
+            continue
         for recv in (c.receivers or [None]):
-            try:
-                results, info = run_function(repo, fq, recv)
-            except Exception as e:
-                print(f'ERROR {fq}: {e}')
-                traceback.print_exc()
+            tasks.append((fq, recv))
+    return tasks
+
+
+def run_tasks(tasks, timeout_ms, jobs):
+    global _REPO
+    from .front import Repo
+    from . import reflect
+    _REPO = Repo()
+    reflect.get()
+    full = [(fq, recv, timeout_ms) for fq, recv in tasks]
+    if jobs <= 1 or len(full) <= 1:
+        return [worker(t) for t in full]
+    ctx = mp.get_context('fork')
+    with ctx.Pool(min(jobs, len(full))) as pool:
+        return pool.map(worker, full, chunksize=1)
+
+
+def main(argv):
+    ap = argparse.ArgumentParser()
+    ap.add_argument('prop', nargs='?')
+    ap.add_argument('--tier', default=os.environ.get('VERIF_TIER', 'quick'), choices=['quick', 'thorough'])
+    ap.add_argument('--func', nargs='*')
+    ap.add_argument('--jobs', type=int, default=int(os.environ.get('PYVC_JOBS', '16')))
+    ap.add_argument('--replay')
+    ap.add_argument('--verbose', '-v', action='store_true')
+    ap.add_argument('--self-test', action='store_true')
+    args = ap.parse_args(argv)
+    sys.path.insert(0, HERE)
+    load_contracts()
+    if args.self_test:
+        from . import selfcheck
+        return selfcheck.main(int(os.environ.get('VERIF_SEED', '0') or 0))
+    from . import contracts as C
+    if args.func is not None:
+        tasks = []
+        for fq in args.func:
+            c = C.CONTRACTS[fq]
+            tasks += [(fq, r) for r in (c.receivers or [None])]
+        outs = run_tasks(tasks, TIMEOUT_MS[args.tier], args.jobs)
+        for o in outs:
+            if o['error']:
+                print(f"ERROR {o['func']}: {o['error']}")
+                if args.verbose:
+                    print(o.get('traceback'))
                 continue
-            bad = [r for r in results if r.status != 'discharged']
-            print(f'{fq} [{recv or ""}] obligations={len(results)} bad={len(bad)} paths={info["paths_normal"]}+{info["paths_raise"]} gen={info["gen_s"]:.2f}s')
+            bad = [r for r in o['results'] if r['status'] != 'discharged']
+            i = o['info']
+            print(f"{o['func']} [{o['receiver'] or ''}] obligations={len(o['results'])} bad={len(bad)} "
+                  f"paths={i['paths_normal']}+{i['paths_raise']} gen={i['gen_s']:.2f}s solve={i['solve_s']}s")
             for r in bad:
-                print('   ', r.status, r.ob.name, r.ob.trail[-4:], r.reason)
-                if r.model is not None:
-                    print('      model:', str(r.model)[:300].replace('\n', ' '))
-    return 0
+                print('   ', r['status'], r['name'], r['trail'][-4:], r['reason'])
+                if args.verbose:
+                    print('      goal:', r.get('goal_str', '')[:400])
+                    print('      entry:', json.dumps(r.get('entry'))[:400])
+        return 0
+    from .report import run_property
+    return run_property(args.prop, args.tier, args.jobs, C)
